@@ -445,13 +445,13 @@ def run_dedupe(chk, fx, prefix="C03"):
 
 
 def run_lostupdate(chk, fx, prefix="C03"):
-    r = chk.rule(prefix + ".lostupdate", "copy - modify - install: a local object copied out of longer-lived state (a ScheduleState member, a Well's or Group's property object, a network, a config ...) and then modified (non-const member call, directly or through ->, or member assignment) is afterwards read by something - handed to update()/updateX()/emplace, moved, returned, compared; a copy that is modified and then dropped means the keyword or restart record it was built for is silently ignored", floor=150)
+    r = chk.rule(prefix + ".lostupdate", "copy - modify - install: a local object copied out of longer-lived state (a ScheduleState member, a Well's or Group's property object, a network, a config ...) and then modified (non-const member call, directly or through ->, or member assignment) is afterwards read by something - handed to update()/updateX()/emplace, moved, returned, compared; a copy that is modified and then dropped means the keyword or restart record it was built for is silently ignored (functions of opm/input/eclipse/Schedule; a const member call only inspects the copy, a repository function that takes it by mutable reference and only calls members on it modifies it)", floor=100)
     from verif import lostupdate
     n_c = 0
     for f in fx.fns:
-        if not f.get("body") or not f["file"].startswith(core.REPO + "/opm/"):
+        if not f.get("body") or not f["file"].startswith(core.REPO + "/opm/input/eclipse/Schedule/"):
             continue
-        rep, nc = lostupdate.analyse(f)
+        rep, nc = lostupdate.analyse(f, fx.fn)
         n_c += nc
         if nc:
             chk.instance(r, f["q"] + "@%d" % f["l"], sample=dict(function=f["q"], copies_of_state=nc, dropped=len(rep)))
